@@ -315,7 +315,11 @@ def t_stringValue(t):  # pylint: disable=missing-docstring
     return t
 
 
-identifier_re = fr'([a-zA-Z_]|({utf8Char}))([0-9a-zA-Z_]|({utf8Char}))*'
+# DSP0004 allows the UCS characters U+0080..U+FFEF in identifiers. The MOF
+# text is a unicode string, so these characters are matched directly (the
+# utf8Char pattern only matches the bytes of UTF-8 encoded text).
+identifier_re = (fr'([a-zA-Z_\u0080-\uFFEF]|({utf8Char}))'
+                 fr'([0-9a-zA-Z_\u0080-\uFFEF]|({utf8Char}))*')
 
 
 @lex.TOKEN(identifier_re)
